@@ -9,7 +9,8 @@ CHECKS = {
         text="Lean theorems: the model of every UnitValue / UnitArray operator method (forward and reflected, _neg/_inv, **, "
              "comparisons, Python's dispatch) is a homomorphism onto exact arithmetic on SI values and dimension vectors for all "
              "expression trees, all valid unit systems and all integer dimension vectors; dimensionally meaningless operations are "
-             "errors (the SI value of scalar ** is a hypothesis of the tree theorem, its dimension rule is proved); operator "
+             "errors; ** : unconditional for integer exponents, for non-integer exponents under the stated (satisfiable) contract "
+             "of the trusted float power; comparisons for all pairings incl. arrays; operator "
              "wiring regenerated from units.py. Tie: translator group UnitsOps + correspondence on random "
              "expression trees and an exhaustive operator x pairing table + per-node SI oracle on the real code.",
         note="Lean kernel + {propext, Classical.choice, Quot.sound}; translator; correspondence harness; float rounding within "
@@ -42,13 +43,14 @@ CHECKS = {
         text="Lean theorems about the executable model of parse_units / parse_unitvalue / Units.__str__ / UnitValue.__str__ / "
              "Units.__eq__ (tables and text-pipeline constants regenerated from units.py on every run): print->parse round trip "
              "for all 1100 valid systems x all integer exponent vectors (own int printer/reader round trip), quantity round trip "
-             "under the float(str(x))=x contract of the trusted primitives, grammar reading (text of any factor list is read back "
-             "as exactly its symbols and signed exponents), dimension = sum of the symbols' dimensions, invariance under "
-             "a/b <-> a.b-1 (whole result) and under factor order (dimension), base units named by every factor, u-spelling, one "
-             "rejection theorem per class of the statement (unknown symbol, doubled / dangling separator, signed positive, "
-             "fractional / misplaced exponent, embedded blank on the raw text, two units of one base kind, value not separated, "
-             "non-numeric value, blank inside a quantity's units). PARTIAL: the SI-scale product formula and 'consistent => "
-             "accepted' are not proved in Lean; they are checked exactly by the oracle. Tie: translator G1/G2 + UnitsText + "
+             "under the float(str(x))=x contract of the trusted primitives, grammar semantics in full (text of any factor list is "
+             "read back as exactly its symbols and signed exponents; accepted iff no two factors name different base units of one "
+             "kind, else raises; dimension = sum of the symbols' dimensions and SI scale = product of the symbols' SI values "
+             "(C06 SI spec) to the signed exponents; whole result invariant under a/b <-> a.b-1 and under factor order), "
+             "u-spelling, one rejection theorem per class of the statement (unknown symbol, doubled / dangling separator, signed "
+             "positive, fractional / misplaced exponent, embedded blank on the raw text, two units of one base kind, value not "
+             "separated, non-numeric value, blank inside a quantity's units — all on the raw text; unknown symbol and two units "
+             "on the factor blocks after the u->µ chain). Tie: translator G1/G2 + UnitsText + "
              "correspondence (all 1-factor strings, all symbol pairs x both separators, random 3-factor strings, round trips, "
              "malformed families from the documentation's wrong examples) + grammar-denotation / must-raise oracle on the real code.",
         note="Lean kernel + {propext, Classical.choice, Quot.sound}; translator; correspondence harness; float()/str(float) of "
